@@ -33,6 +33,16 @@ CLAIMED = {
    ref="§4 C04",
    note=TB + "positivity is NOT shown (DESIGN §6); PT-TEBD norm / Gibbs normalisation are handled under C10 / C11; "
         "scipy expm/quad outputs are data whose trace/Hermiticity preservation is checked per run, not proved."),
+ "C06": dict(
+   technique="Lean 4 proof (well-definedness of the reduced tables + congruence of the path sum) + exact correspondence of degeneracy maps and reduced tables",
+   text=("Proved for every dimension, number of steps, memory setting and coincidence pattern (none to total): reading the "
+         "influence tables at class representatives leaves them unchanged whenever the table depends on its indices only "
+         "through the keys the degeneracy maps are built from (unique_tables_eq; the keyed form holds for influence_matrix's "
+         "formula, inflEntry_keyed), hence TEMPO's state with reduced tables equals the state with full tables "
+         "(unique_eq_full). Tie: real degeneracy maps vs rowDegeneracy (exact), reduced real tables vs full tables at "
+         "representatives (exact), real Tempo(unique) vs the reduced-table model, PT-TEMPO(unique) through C02."),
+   ref="§4 C06",
+   note=TB + "keys compared exactly (code rounds to 12 decimals); mean-field TEMPO shares the backend step, no separate theorem."),
  "C13": dict(
    technique="Lean 4 proof over a model regenerated from source (translator) + differential correspondence",
    text=("Step-count and label expressions of all APIs are regenerated from the source into Lean on every run; "
